@@ -286,6 +286,12 @@ def run(ctx):
                         continue        # (implicit / 2nd-order embedded pairs at the default tolerance of 32 eps need minutes per run)
                     for te in ((None,) if span[1] < span[0] else (None, [span[0] + 0.5 * (span[1] - span[0]), span[1]])):
                         cases.append(dict(section="facade", method=nm, span=list(span), shape=[2], t_eval=te, dense=False, tol=tol, max_step=ms, first_step=None, by_hand=True))
+    # S4b: first_step together with max_step (larger than, equal to and smaller than it)
+    for nm in ("RK4", "RK45", "DOPRI45", "RK87", "ABAS5O6H"):
+        for span in fwd + [(1.0, -1.0)]:
+            for (fs, ms) in ((0.5, 0.1), (0.1, 0.1), (0.05, 0.1), (0.25, 0.125)):
+                for tol in (1e-6, 1e-8):
+                    cases.append(dict(section="facade", method=nm, span=list(span), shape=[2], t_eval=None, dense=False, tol=tol, max_step=ms, first_step=fs, by_hand=True))
     # S5: scipy
     for nm, sp in (("RK45", "RK45"), ("DOPRI45", "RK45"), ("RK87", "DOP853"), ("RK108", "DOP853"), ("RadauIIA5", "Radau")):
         for span in fwd + [(1.0, -1.0)]:
